@@ -47,6 +47,9 @@ def dec_lemma(c):
         v = c.view(E)
         pdu = E.as_bytes(L.concat([fc_byte(E, c, v)], c.wire(E, v)))
         dec = E.new(SDEC if c.direction == 'req' else CDEC)
+        # "for all histories": the decoder has decoded a message of this class before (here: the same bytes) - what that left behind in
+        # the decoder, the class or its defaults must not show in the message decoded next
+        E.attempt(lambda: E.method(dec, 'decode', pdu))
         out = E.attempt(lambda: E.method(dec, 'decode', pdu))
         fk = c.fk('dec:exception', v)
         if not out.ok:
